@@ -456,9 +456,9 @@ def netcdf_child(root, seed):
     return problems, info
 
 
-def netcdf_case(ck, scratch):
+def netcdf_case(ck, scratch, seed=None):
     root = tempfile.mkdtemp(dir=scratch)
-    seed = ck.rng.randint(0, 10 ** 9)
+    seed = ck.rng.randint(0, 10 ** 9) if seed is None else seed
     case = {"op": "netcdf", "seed": seed}
     r, w = os.pipe()
     pid = os.fork()
@@ -530,12 +530,28 @@ def main():
     use_model = os.path.exists(os.path.join(ck.pkgdir, ".lake/build/bin/drv_c11"))
     scratch = tempfile.mkdtemp(prefix="verif_c11_")
     try:
+        for name, c in vlib.load_corpus(PROP):
+            run_case(ck, scratch, c, use_model)
         explore(ck, scratch, ck.budget(60, 1500), ck.budget(6, 60), ck.budget(8, 60), ck.budget(4, 30), use_model)
         if ck.broken() and not ck.violations:
             explore(ck, scratch, 1500, 40, 40, 10, False)
     finally:
         shutil.rmtree(scratch, ignore_errors=True)
     ck.finish()
+
+
+def run_case(ck, scratch, c, use_model):
+    """corpus / replay entries: {"op": "netcdf", "seed": n} or {"op": "history", "rng_seed": n, "nops": k, "pool": "thread"}"""
+    import random
+    if c.get("op") == "netcdf" and "seed" in c:
+        netcdf_case(ck, scratch, seed=c["seed"])
+    elif c.get("op") == "history" and "rng_seed" in c:
+        saved = ck.rng
+        ck.rng = random.Random(c["rng_seed"])
+        try:
+            history_case(ck, scratch, c.get("nops", 12), use_model, c.get("pool", "thread"))
+        finally:
+            ck.rng = saved
 
 
 def explore(ck, scratch, n_thread, n_process, n_csv, n_nc, use_model):
@@ -559,7 +575,13 @@ def replay(path):
     ck = make_check()
     scratch = tempfile.mkdtemp(prefix="verif_c11_")
     try:
-        explore(ck, scratch, ck.budget(60, 1500), ck.budget(6, 60), ck.budget(8, 60), ck.budget(4, 30), False)
+        c = obj.get("case") or {}
+        if c.get("op") == "netcdf" and "seed" in c:
+            run_case(ck, scratch, c, False)
+        else:
+            for name, cc in vlib.load_corpus(PROP):
+                run_case(ck, scratch, cc, False)
+            explore(ck, scratch, ck.budget(60, 1500), ck.budget(6, 60), ck.budget(8, 60), ck.budget(4, 30), False)
     finally:
         shutil.rmtree(scratch, ignore_errors=True)
     for v in ck.violations[:5]:
